@@ -626,7 +626,7 @@ class DrapeMerge(Contract):
     symbolic = False
     has_native = True
     props = ("C16",)
-    bounded_scope = "2-4 drape models with 2-3 prisms of 1-3 layers each (quick: 2 and 3 inputs over 6 layer-count patterns = 252 cases; thorough adds 4 inputs); each input carries a float channel and two data of one name with different types"
+    bounded_scope = "2-4 drape models with 2-3 prisms of 1-3 layers each (quick: 2 and 3 inputs over 6 layer-count patterns = 252 cases; thorough adds 4 inputs); each input carries a float channel and two data of one name with different types; one input also holding object-associated numeric data (1 or 3 values)"
 
     PATTERNS = [[1, 1], [1, 2], [2, 1], [3, 1], [2, 2, 1], [1, 3, 2]]
 
@@ -636,6 +636,10 @@ class DrapeMerge(Contract):
                 if k == 4 and sum(combo) % 5:
                     continue
                 yield {"counts": [self.PATTERNS[i] for i in combo]}
+        # an input that also holds numeric data belonging to the object as a whole (one value / three values)
+        for pos in (0, 1):
+            for n in (1, 3):
+                yield {"counts": [[1, 2], [2, 1]], "whole": pos, "n": n}
 
     @staticmethod
     def _make(ws, name, x0, counts, v0):
@@ -675,9 +679,20 @@ class DrapeMerge(Contract):
 
         with Workspace() as ws:
             ins = [self._make(ws, f"d{i}", 10.0 * i, c, 100.0 * i) for i, c in enumerate(case["counts"])]
+            whole = None
+            if "whole" in case:
+                whole = np.arange(float(case["n"])) + 900
+                ins[case["whole"]].add_data({"whole": {"values": whole, "association": "OBJECT"}})
             snap = [(np.array(o.prisms, float).copy(), np.array(o.layers, float).copy(), np.array(o.get_data("v")[0].values, float).copy()) for o in ins]
             gs = [self._geom(p, l) for p, l, _ in snap]
-            m = DrapeModelMerger.merge_objects(ws, ins)
+            try:
+                m = DrapeModelMerger.merge_objects(ws, ins)
+            except Exception as exc:
+                return f"merging drape models raised {type(exc).__name__}: {exc} ({case})"
+            if whole is not None:
+                got = [c for c in m.children if getattr(c, "name", None) == "whole" and getattr(c, "values", None) is not None]
+                if len(got) != 1 or not np.allclose(np.asarray(got[0].values, float), whole):
+                    return f"data of an input belonging to the object as a whole (values {whole.tolist()}) are not preserved on the merged drape model ({case})"
             mg = self._geom(m.prisms, m.layers)
             if isinstance(mg, str):
                 return f"merged prism/layer tables disagree: {mg} ({case})"
